@@ -310,4 +310,127 @@ theorem pass_supervision (s : Station) (apps : Apps) (now : Int) (phy : Bool) (r
           · exact .inr (.inl h')
           · exact .inr (.inr ⟨pre, da, sa, hc, by rw [← hp]; exact hda, by rw [← hp]; exact hsa, hps, hu⟩)
 
+
+/-- Registered bus activity blocks the expiry: if a new byte has become pending since the last poll,
+the slot time is not expired in this poll — nothing is retransmitted, nobody is removed. -/
+theorem activity_blocks_expiry (s : Station) (now : Int) (rx : Bytes) (h : rx.length > s.pendingBytes) :
+    ¬ SlotExpired s now rx := by
+  intro he
+  have := (slotExpired_silent s now rx he).1
+  omega
+
+/-- **`never_remove_heard`** (one whole poll, ANY start state).  Across a poll the ring view evolves
+without any `remove_station` — only by witnessed token passes (heard or own), a successor entered
+after a positive GAP reply, the claim, or the reset when the station takes itself offline (`RingEvo`)
+— except in a poll that starts online in `CheckTokenPass` on the THIRD attempt with the slot time
+expired in silence: no new byte pending since the last poll and the last registered bus activity more
+than a slot time ago.  Then exactly NS is removed (followed, if the synchronisation pause is over, by
+the witnessed pass to the new NS).  A successor from which any activity was registered within the slot
+time is therefore never removed by supervision. -/
+theorem never_remove_heard (s : Station) (apps : Apps) (now : Int) (phy : Bool) (rx : Bytes) (c' : Ctx)
+    (h : s.poll apps now phy rx = .ok c') :
+    RingEvo s.p.address s.ring c'.s.ring ∨
+    (s.online = true ∧ s.st = .checkTokenPass .third ∧
+      (rx.length ≤ s.pendingBytes ∧ ∃ l, s.lastBusActivity = some l ∧ l + (s.p.slotTime : Nat) < now) ∧
+      ∃ r0, s.ring.removeStation s.ring.ns = some r0 ∧
+        (c'.s.ring = r0 ∨ c'.s.ring = r0.witness s.p.address r0.ns)) := by
+  rcases poll_ring s apps now phy rx c' h with hr | ⟨hon, hst, hex, hrm⟩
+  · exact .inl hr
+  · exact .inr ⟨hon, hst, slotExpired_silent s now rx hex, hrm⟩
+
+/-- **Trace form** of the hand-over rules: after ANY sequence `pre` of `poll` / `set_online` /
+`set_offline` calls from a fresh station, the next call `a` does not panic, and if it is a poll then,
+with respect to the state `w` the station is in at that moment: a listener does not accept
+(`listener_never_accepts`), an idle station accepts only from PS or the pending stranger
+(`accept_only_from_ps_or_repeat`), and the ring view loses a station by supervision only on a silent
+third expiry (`never_remove_heard`); `set_online` leaves the ring view alone and `set_offline` resets
+it. -/
+theorem handover_trace (p : Params) (apps : Apps) (h1 : p.address < p.hsa) (h2 : p.hsa ≤ 126)
+    (hs : ScriptsOk apps) (pre : List ApiCall) (a : ApiCall) :
+    ∃ w w' l, World.run { s := Station.new p, apps := apps, rx := [] } pre = some w ∧ w.stepLog a = some (w', l) ∧
+      -- ring view
+      (RingEvo w.s.p.address w.s.ring w'.s.ring ∨
+        (∃ now phy arrived, a = .poll now phy arrived ∧ w.s.online = true ∧ w.s.st = .checkTokenPass .third ∧
+          ((w.rx ++ arrived).length ≤ w.s.pendingBytes ∧
+            ∃ l0, w.s.lastBusActivity = some l0 ∧ l0 + (w.s.p.slotTime : Nat) < now) ∧
+          ∃ r0, w.s.ring.removeStation w.s.ring.ns = some r0 ∧
+            (w'.s.ring = r0 ∨ w'.s.ring = r0.witness w.s.p.address r0.ns))) ∧
+      -- listeners
+      (((∃ sr coll, w.s.st = .listenToken sr coll) ∨ w.s.st = .offline) →
+        (∀ d f, w'.s.st ≠ .useToken d f) ∧ (∀ x d, w'.s.st ≠ .awaitData x d) ∧ (∀ g att, w'.s.st ≠ .passToken g att) ∧
+        (∀ att, w'.s.st ≠ .checkTokenPass att) ∧ (∀ x, w'.s.st ≠ .awaitStatus x)) ∧
+      -- acceptance
+      (∀ sr np coll d fcd, w.s.st = .activeIdle sr np coll → w'.s.st = .useToken d fcd →
+        ∃ now phy arrived rx' pre' da sa ret, a = .poll now phy arrived ∧
+          receiveAll (w.rx ++ arrived) = .done rx' (pre' ++ [(Telegram.token da sa, true)]) ret ∧
+          da.toNat = w.s.p.address ∧ sa.toNat ≠ w.s.p.address ∧ (sa.toNat = w'.s.ring.ps ∨ np = some sa.toNat)) := by
+  obtain ⟨w, w', l, hw, -, hl⟩ := reach_step p apps h1 h2 hs pre a
+  refine ⟨w, w', l, hw, hl, ?_⟩
+  cases a with
+  | poll now phy arrived =>
+    simp only [World.stepLog] at hl
+    split at hl
+    · rename_i c hc
+      cases hl
+      refine ⟨?_, ?_, ?_⟩
+      · rcases never_remove_heard _ _ _ _ _ _ hc with hr | ⟨e1, e2, e3, e4⟩
+        · exact .inl hr
+        · exact .inr ⟨now, phy, arrived, rfl, e1, e2, e3, e4⟩
+      · intro hst
+        exact listener_never_holds_token _ _ _ _ _ _ hc hst
+      · intro sr np coll d fcd hst hu
+        obtain ⟨-, -, -, -, rx', pre', da, sa, ret, e1, e2, e3, e4⟩ :=
+          accept_only_from_ps_or_repeat _ _ _ _ _ _ hc sr np coll hst d fcd hu
+        exact ⟨now, phy, arrived, rx', pre', da, sa, ret, rfl, e1, e2, e3, e4⟩
+    · cases hl
+  | setOnline =>
+    cases hl
+    refine ⟨.inl (.refl _), ?_, ?_⟩
+    · intro hst
+      have hsame : (w.s.setOnline).st = w.s.st := rfl
+      refine ⟨?_, ?_, ?_, ?_, ?_⟩ <;> intros <;> intro hc <;> rw [hsame] at hc <;>
+        rcases hst with ⟨_, _, h'⟩ | h' <;> rw [h'] at hc <;> cases hc
+    · intro sr np coll d fcd hst hu
+      have hsame : (w.s.setOnline).st = w.s.st := rfl
+      rw [hsame, hst] at hu; cases hu
+  | setOffline =>
+    cases hl
+    obtain ⟨f1, f2, f3, f4⟩ := setOffline_fields w.s
+    refine ⟨.inl ?_, ?_, ?_⟩
+    · show RingEvo w.s.p.address w.s.ring w.s.setOffline.ring
+      rw [f4]; exact .reset _
+    · intro _
+      refine ⟨?_, ?_, ?_, ?_, ?_⟩ <;> intros <;> intro hc <;>
+        (have hc' : w.s.setOffline.st = _ := hc) <;> rw [f3] at hc' <;> cases hc'
+    · intro sr np coll d fcd _ hu
+      have hu' : w.s.setOffline.st = _ := hu
+      rw [f3] at hu'; cases hu'
+
+/-! ### Non-vacuity -/
+
+/-- An idle station (TS 7, PS 3) polled with the bytes of a token 3→7: the poll accepts it — the
+hypotheses of `accept_only_from_ps_or_repeat` are satisfiable. -/
+def idleStation : Station := { demo.s with lastBusActivity := some 0 }
+
+set_option maxRecDepth 100000 in
+example : (match idleStation.poll [] 1000 false [0xDC, 7, 3] with
+    | .ok c => c.s.st | .panic _ => .offline) = .useToken ⟨1000, none⟩ false := by decide
+
+/-- A supervising station on its third attempt, silent for more than a slot time (400 µs): the poll
+removes NS = 9 — the exceptional case of `never_remove_heard` does occur. -/
+def supervisingStation : Station := { demo.s with st := .checkTokenPass .third, lastBusActivity := some 0 }
+
+set_option maxRecDepth 100000 in
+example : (match supervisingStation.poll [] 1000 false [] with
+    | .ok c => (c.s.st, c.s.ring.ns, c.s.ring.isActive 9) | .panic _ => (.offline, 0, true)) =
+    (.useToken ⟨1000, none⟩ false, 7, false) := by decide
+
+/-- … and with a byte newly pending it does not (`activity_blocks_expiry`): nothing changes. -/
+example : ¬ SlotExpired supervisingStation 1000 [0xDC] := activity_blocks_expiry _ _ _ (by decide)
+
+/-- The trace theorem instantiated on a concrete history. -/
+example := handover_trace demoParams [[.decline]] (by decide) (by decide)
+    (by intro s hs a ha h pdu he; simp at hs; subst hs; simp at ha; subst ha; cases he)
+    [.setOnline, .poll 100 false [0xDC, 7, 3], .poll 100000 false []] (.poll 100500 false [])
+
 end PV.C11
